@@ -914,6 +914,10 @@ func Vacuum(ctx context.Context, tableName string, beforeTime time.Time) error {
 		return fmt.Errorf("table not found: %s", tableName)
 	}
 
+	if table.Tree.Root.IsDirty() {
+		// vacuuming commits the tree: never publish a transaction early
+		return fmt.Errorf("table has uncommitted changes: %s", tableName)
+	}
 	db, err := table.Tree.Root.Clone(ctx)
 	if err != nil {
 		return fmt.Errorf("clone: %w", err)
